@@ -2,6 +2,7 @@
 TensorWal open/append/sync/replay executed from tensor_store's MIR on the byte-list file model."""
 import sys
 import os
+import itertools
 sys.path.insert(0, os.path.dirname(os.path.dirname(os.path.abspath(__file__))))
 from props.common import *
 from props.walcommon import *
@@ -106,7 +107,7 @@ for L in LENS[:1]:
 # The real TensorWal (file model) sits behind `self.wal`; the slabs are opaque (put/delete record that they were called).
 # Decided: for a non-cache key the record of the write is wholly on disk and fsynced before the in-memory apply, a WAL
 # failure (size limit, rotation off) prevents the apply, and cache keys are never logged.  Slab contents are not modelled.
-from mirsym.models import some as _some, none as _none
+from mirsym.models import some as _some, none as _none, deref
 ck.declare('L1_log_before_apply', 'put_durable / delete_durable, one call, arbitrary key class, WAL size limit symbolic',
            'Ok on a durable key => the MetadataSet/MetadataDelete record for that key is complete and fsynced in the log before the slab is touched, and it is the last record replay returns; '
            'WAL error => slab untouched; cache keys => nothing logged')
@@ -207,6 +208,51 @@ if applied == 0 or refused == 0:
     ck.inconclusive.append(f'vacuous: durable op applied on {applied} paths, refused on {refused}')
 ck.notes.append(f'put/delete_durable: applied on {applied} paths, refused (WAL error) on {refused}')
 ck.functions += ['SlabRouter::put_durable', 'SlabRouter::delete_durable']
+
+# ------------------------------------------------------------------ R1: what recovery replays
+# WalRecovery::{from_entries, all_operations} on every sequence of up to RN records drawn from the kinds production code
+# writes (put_durable -> MetadataSet, delete_durable -> MetadataDelete/EmbeddingDelete/EntityRemove, checkpoint ->
+# Checkpoint): the operations handed to apply_wal_entry are exactly the records after the last checkpoint marker, in log order.
+RN = 3 if T == 'quick' else 5
+ck.declare('R1_recovery_replays_suffix_in_order', f'every sequence of 0..{RN} records of kinds MetadataSet / MetadataDelete / EntityRemove / Checkpoint (contents symbolic)',
+           'all_operations() = the records after the last Checkpoint, in log order, nothing else; last_checkpoint is that marker\'s id')
+ck.assumptions.append('R1: transaction markers (TxBegin/TxCommit/TxAbort) are not part of the sequences: nothing outside tests writes them to the store log')
+ex.extra_models['<WalEntry as Clone>::clone'] = lambda c: c.args[0].load(c.st)     # the copy is only read; identity = the record's name
+KINDS = ('MetadataSet', 'MetadataDelete', 'EntityRemove', 'Checkpoint')
+WV = {k: P.variant_index('WalEntry', k) for k in KINDS}
+r1_n = 0
+for n in range(0, RN + 1):
+    for kinds in itertools.product(KINDS, repeat=n):
+        st = ex.new_state()
+        ents = []
+        for i, k in enumerate(kinds):
+            e = Enum('WalEntry', WV[k], {}, variant=k, lazy=f'e{i}')
+            ents.append(e)
+        res = sc.run(st, 'WalRecovery::from_entries', [ref(Seq('WalEntry', ents))])
+        ck.note_path_problem(res, f'from_entries {kinds}')
+        for r in res:
+            wit = lambda m, kinds=kinds: {'recovery': list(kinds)}
+            if r.status == 'panic':
+                ck.require(ex, 'R1_recovery_replays_suffix_in_order', r.pc, None, z3.BoolVal(False), wit, lambda m, w: 'recovery-panic')
+                continue
+            if r.status != 'return':
+                continue
+            rec = r.retval
+            st2 = r.st
+            st2.roots['rec'] = rec
+            res2 = sc.run(st2, 'WalRecovery::all_operations', [ref(rec)])
+            ck.note_path_problem(res2, f'all_operations {kinds}')
+            for r2 in res2:
+                if r2.status != 'return':
+                    continue
+                got = [getattr(deref(r2.st, x), 'lazy', None) for x in r2.retval.items(r2.st)]
+                last = max([i for i, k in enumerate(kinds) if k == 'Checkpoint'], default=-1)
+                want = [f'e{i}' for i in range(last + 1, n)]
+                ck.require(ex, 'R1_recovery_replays_suffix_in_order', r2.pc, None, z3.BoolVal(got == want), lambda m, kinds=kinds, got=got: {'recovery': list(kinds), 'replayed': got},
+                           lambda m, w: 'recovery-order')
+                r1_n += 1
+ck.notes.append(f'R1: {r1_n} record sequences')
+ck.functions += ['WalRecovery::from_entries', 'WalRecovery::all_operations']
 
 # ------------------------------------------------------------------ native replay
 for v in ck.violations:
